@@ -15,13 +15,42 @@ import (
 func reconfHist(rng *rand.Rand) (int, []act) {
 	capa := 2 + rng.Intn(9)
 	nkeys := 2 + rng.Intn(capa+2)
+	big := rng.Intn(4) == 0
+	scap := capa // the capacity the charges are drawn for
+	if big {
+		// capacities around counter widths and "no limit" (MaxInt64); charges up to 65540 keep every sum
+		// inside TLC's integers whatever capacity follows
+		capa = bigCaps[rng.Intn(len(bigCaps))]
+		scap = capa
+		if scap > 65537 {
+			scap = 65537
+		}
+		nkeys = 2 + rng.Intn(5)
+	}
 	block := make([]act, 6+rng.Intn(10))
 	for i := range block {
-		a := randAct(rng, nkeys, capa)
+		a := randAct(rng, nkeys, scap)
 		for a.Op == "setcap" || a.Op == "clear" {
-			a = randAct(rng, nkeys, capa)
+			a = randAct(rng, nkeys, scap)
 		}
 		block[i] = a
+	}
+	if big {
+		acts := append([]act{}, block...)
+		for i := 0; i < 3+rng.Intn(4); i++ {
+			c := bigCaps[rng.Intn(len(bigCaps))]
+			switch rng.Intn(5) {
+			case 0:
+				c = capa
+			case 1:
+				acts = append(acts, act{Op: "clear"})
+			case 2:
+				acts = append(acts, act{Op: "setcap", C: 0})
+			}
+			acts = append(acts, act{Op: "setcap", C: c})
+			acts = append(acts, block...)
+		}
+		return capa, acts
 	}
 	confs := [][]act{
 		{{Op: "setcap", C: capa / 2}},
@@ -188,7 +217,9 @@ func marks(upto int) []int {
 
 // longChurn: a small full cache, `total` insertions of absent keys cycling over cap+1 keys: every call
 // evicts the least recently used entry, so the eviction counter and anything that orders entries by
-// age pass every mark; the entries held and the counters are read at each mark.
+// age pass every mark; the entries held and the counters are read at each mark.  Within one piece all
+// calls store one value, which makes the piece periodic: the trace specification applies one period and,
+// if that reproduces the state up to the eviction counter, the remaining periods at once.
 func longChurn(w *tr.W, rng *rand.Rand, sized bool, total int) {
 	capa := 1 + rng.Intn(3)
 	l := newLRU(sized, capa, 0)
@@ -197,7 +228,7 @@ func longChurn(w *tr.W, rng *rand.Rand, sized bool, total int) {
 	done := 0
 	for _, m := range marks(total) {
 		// the cycle goes on where the previous piece stopped (ko)
-		doRun(w, l, runT{a: act{Op: op, K: 1, V: 1000 + done, S: 1}, n: m - done, dk: 1, km: capa + 1, dv: 1, ko: done % (capa + 1)})
+		doRun(w, l, runT{a: act{Op: op, K: 1, V: 1000 + done%7, S: 1}, n: m - done, dk: 1, km: capa + 1, dv: 0, ko: done % (capa + 1)})
 		done = m
 		getters(w, l)
 		w.Emit(fin(tr.E{"ev": "final", "obs": l.obs()}))
